@@ -16,6 +16,7 @@ RULE = ("(i) GlobalTrapezoidalGridWeighted on weighted refinement trees (splits 
         "(ii) real dimension-wise UQ runs (d=1..3, real estimator or seeded hostile error values) with the vector model [g, c*g+e, const] "
         "and set_expectation_variance_Function(): E[c g+e]=cE[g]+e, Var[c g+e]=c^2 Var[g], Var>=0, constant model E=const, Var~0. "
         "distinct = digest(distribution, tree / configuration); non-trivial = non-uniform distribution or >=2 refinement steps")
+RULE += (" A fifth of the grid cases use 3..5 stochastic dimensions built from 2..3 prototype distributions that repeat in a pattern ([X,X,Y,Y], [U,N,U,T,T], ...).")
 RULE += (" " + 'Dimensions of one family on identical bounds carry DIFFERENT parameters in a third of the cases; reference probabilities and means come from scipy.stats objects built from the distribution description, never from the library. Every relation is judged on the first and on two repeated read-outs of calculate_expectation_and_variance without refinement in between.')
 REQUIRED = ["weights_nonnegative", "weights_sum_to_one", "uniform_equals_trapezoid", "midpoint_inside", "midpoint_equal_probability",
             "expectation_affine", "variance_affine", "variance_nonnegative", "constant_model"]
@@ -65,6 +66,33 @@ def gen_distribution(rng, d, allow_normal=True):
     return [("Normal", float(mu), float(sigma)) for _ in range(d)], [-np.inf] * d, [np.inf] * d, kind
 
 
+def gen_pattern(rng):
+    """d = 3..5 stochastic dimensions built from 2..3 prototype distributions (family, parameters, bounds) that REPEAT in a pattern
+    such as [X, X, Y, Y] or [U, N, U, T, T]: the library shares one distribution object between equal dimensions."""
+    protos = []
+    fams = rng.sample(["Uniform", "Triangle", "Normal", "Uniform", "Triangle"], rng.choice([2, 3]))
+    for fam in fams:
+        if fam == "Uniform":
+            lo = rng.choice([0.0, rng.uniform(-3, 3)])
+            hi = lo + rng.choice([1.0, rng.uniform(0.3, 4)])
+            protos.append((("Uniform",), lo, hi))
+        elif fam == "Triangle":
+            lo = rng.choice([0.0, rng.uniform(-2, 2)])
+            hi = lo + rng.choice([1.0, rng.uniform(0.5, 4)])
+            protos.append((("Triangle", float(lo + rng.uniform(0.15, 0.85) * (hi - lo))), lo, hi))
+        else:
+            protos.append((("Normal", float(rng.uniform(-2, 3)), float(rng.uniform(0.3, 2.5))), -np.inf, np.inf))
+    d = rng.choice([3, 4, 4, 5])
+    while True:
+        pat = [rng.randrange(len(protos)) for _ in range(d)]
+        if len(set(pat)) >= 2 and len(pat) > len(set(pat)):
+            break
+    if rng.random() < 0.5:
+        pat = sorted(pat)          # [X, X, Y, Y]-like
+    infos = [protos[i][0] for i in pat]
+    return infos, [protos[i][1] for i in pat], [protos[i][2] for i in pat], "repeated_pattern"
+
+
 def reference_distribution(info, lo, hi):
     """independent scipy.stats object for a distribution description (never the library's own distribution objects)"""
     from scipy import stats
@@ -82,7 +110,12 @@ def run_grid(case, res):
     rng = random.Random(case["seed"])
     d = rng.choice([1, 1, 2, 2, 3])
     infos, a, b, kind = gen_distribution(rng, d)
-    boundary = False if kind == "normal" else rng.random() < 0.5
+    if rng.random() < 0.2:
+        infos, a, b, kind = gen_pattern(rng)
+        d = len(infos)
+        res.count("repeated_distribution_patterns")
+    fam = [{"Uniform": "uniform", "Triangle": "triangle", "Normal": "normal"}[i[0]] for i in infos]
+    boundary = False if "normal" in fam else rng.random() < 0.5
     an, bn = np.array(a, dtype=float), np.array(b, dtype=float)
     if len(set(infos)) > 1:
         res.count("mixed_parameters_same_bounds")
@@ -112,12 +145,12 @@ def run_grid(case, res):
         tol = 1e-4 if boundary else 1e-12
         res.close("weights_sum_to_one", float(np.sum(w)), 1.0, tol, "C15_weight_sum:%s:%s" % (kind, "boundary" if boundary else "no_boundary"),
                   "1-D weights of dimension %d (%s) sum to %r" % (k, kind, float(np.sum(w))), dict(cfg, dim=k, weights=w[:12]))
-        if boundary and kind != "normal":
+        if boundary and fam[k] != "normal":
             # the weights integrate the piecewise linear interpolant against the density of THIS dimension: sum w_i x_i = E[x_k]
             refd = reference_distribution(infos[k], a[k], b[k])
             res.close("first_moment", float(np.sum(w * np.asarray(pts[k]))), float(refd.mean()), 1e-2 * (b[k] - a[k]),
                       "C15_first_moment:" + kind, "sum w_i x_i of dimension %d differs from the mean of %r" % (k, infos[k]), dict(cfg, dim=k))
-        if kind.startswith("uniform"):
+        if fam[k] == "uniform":
             ref = rm.trapezoid_weights(pts[k]) / (b[k] - a[k])
             if boundary:
                 res.close("uniform_equals_trapezoid", w, ref, 1e-10, "C15_uniform_weights:" + kind,
@@ -130,7 +163,7 @@ def run_grid(case, res):
     dists = op.get_distributions()
     for _ in range(12):
         k = rng.randrange(d)
-        if kind == "normal":
+        if fam[k] == "normal":
             mu, sg = infos[k][1], infos[k][2]
             x1 = rng.choice([-np.inf, mu + sg * rng.uniform(-4, 4), mu - 6 * sg])
             x2 = rng.choice([np.inf, mu + sg * rng.uniform(-4, 4), mu + 6 * sg])
